@@ -151,6 +151,7 @@ class Analyzer:
                 self.prov(ci, owner, fname, fdef)
                 self.calls(ci, owner, fname, fdef)
                 self.reads_rng(ci.name, owner.name + "." + fname, fdef, owner.file)
+                self.reads_hash_order(ci.name, owner.name + "." + fname, fdef, owner.file)
                 self.reads_dir(ci, owner, fname, fdef)
                 self.dynamic(ci, owner, fname, fdef)
             self.ctor(ci)
@@ -164,10 +165,12 @@ class Analyzer:
                 continue
             for fname, fdef in mi.functions.items():
                 self.reads_rng("kernel", f"{modname.split('.')[-1]}.{fname}", fdef, mi.file)
+                self.reads_hash_order("kernel", f"{modname.split('.')[-1]}.{fname}", fdef, mi.file)
                 self.kernel_calls(modname, None, fname, fdef, mi.file)
             for c in mi.classes.values():
                 for fname, fdef in c.methods.items():
                     self.reads_rng("kernel", f"{c.name}.{fname}", fdef, mi.file)
+                    self.reads_hash_order("kernel", f"{c.name}.{fname}", fdef, mi.file)
                     self.kernel_calls(modname, c, fname, fdef, mi.file)
             self.module_imports_rng(mi)
         self.kernel_stateless()
@@ -479,6 +482,64 @@ class Analyzer:
                 elif len(path) >= 3 and path[-2] == "random" and path[0] in ("np", "numpy"):
                     self.add("READS-rng", cls, where, node, ast.unparse(node)[:70], True,
                              "draw from the numpy legacy global RNG (seeded by optimize)", file)
+
+    # sets of str / bytes / objects iterate in an order that depends on PYTHONHASHSEED (C07: runs in different processes);
+    # sets of small ints do not.  A set whose elements are provably ints: set(range(..)), and what is carved out of one.
+    @staticmethod
+    def _is_set_expr(e, names=()):
+        if isinstance(e, (ast.Set, ast.SetComp)):
+            return True
+        if isinstance(e, ast.Call) and isinstance(e.func, ast.Name) and e.func.id in ("set", "frozenset"):
+            return True
+        if isinstance(e, ast.Name) and e.id in names:
+            return True
+        if isinstance(e, ast.BinOp) and isinstance(e.op, (ast.Sub, ast.BitAnd, ast.BitOr, ast.BitXor)):
+            return Analyzer._is_set_expr(e.left, names) or Analyzer._is_set_expr(e.right, names)
+        return False
+
+    @staticmethod
+    def _int_ordered(e):
+        if isinstance(e, ast.Call) and isinstance(e.func, ast.Name) and e.func.id in ("set", "frozenset"):
+            return len(e.args) == 1 and isinstance(e.args[0], ast.Call) and isinstance(e.args[0].func, ast.Name) \
+                and e.args[0].func.id == "range"
+        if isinstance(e, ast.Set):
+            return all(isinstance(x, ast.Constant) and isinstance(x.value, int) for x in e.elts)
+        if isinstance(e, ast.BinOp):
+            if isinstance(e.op, (ast.Sub, ast.BitAnd)):
+                return Analyzer._int_ordered(e.left)
+            if isinstance(e.op, (ast.BitOr, ast.BitXor)):
+                return Analyzer._int_ordered(e.left) and Analyzer._int_ordered(e.right)
+        return False
+
+    def reads_hash_order(self, cls, where, fdef, file):
+        names = set()
+        for node in ast.walk(fdef):
+            if isinstance(node, ast.Assign) and len(node.targets) == 1 and isinstance(node.targets[0], ast.Name) \
+                    and self._is_set_expr(node.value) and not self._int_ordered(node.value):
+                names.add(node.targets[0].id)
+        sorted_args = set()
+        for node in ast.walk(fdef):
+            if isinstance(node, ast.Call) and isinstance(node.func, ast.Name) and node.func.id in ("sorted", "len", "min", "max", "sum", "any", "all"):
+                for a in node.args:
+                    sorted_args.add(id(a))
+        ORDERED = ("list", "tuple", "enumerate", "iter", "next", "zip", "map", "array", "asarray", "fromiter", "choice", "join",
+                   "permutation", "shuffle", "stack", "concatenate")
+        for node in ast.walk(fdef):
+            cands = []
+            if isinstance(node, ast.Call):
+                path = _root(node.func)
+                if path and path[-1] in ORDERED:
+                    cands = list(node.args)
+                elif path and path[-1] == "pop" and isinstance(node.func, ast.Attribute) and not node.args:
+                    cands = [node.func.value] if self._is_set_expr(node.func.value, names) and not isinstance(node.func.value, ast.Name) else []
+            elif isinstance(node, (ast.For, ast.comprehension)):
+                cands = [node.iter]
+            for a in cands:
+                if id(a) in sorted_args:
+                    continue
+                if self._is_set_expr(a, names) and not self._int_ordered(a):
+                    self.add("READS-rng", cls, where, a if hasattr(a, "lineno") else fdef, ast.unparse(a)[:70], False,
+                             "iteration order of a set whose elements are not provably ints depends on PYTHONHASHSEED", file)
 
     def module_imports_rng(self, mi):
         for node in mi.tree.body:
